@@ -144,6 +144,12 @@ LAWS = [
     ("same-var-focus", lambda fn, cap, ctx: (f"{fn}({ctx}, x=1) > x", f"{fn}({ctx}, x=1, !x)")),
     ("same-var-twice", lambda fn, cap, ctx: (f"{fn}(x) > x", f"{fn}(x, !x)")),
     ("same-var-nested", lambda fn, cap, ctx: (f"g > {fn}(x~p(3)) > x", f"g({fn}(x~p(3), !x))")),
+    # two notations composed on one call: the return value captured AND conditioned
+    ("call-as-eq", lambda fn, cap, ctx: (f"{fn}({ctx}) as r = 1", f"{fn}({ctx}, !#value as r, #value=1)")),
+    ("call-as-match", lambda fn, cap, ctx: (f"{fn}({ctx}) as r ~ p(3)", f"{fn}({ctx}, !#value as r, #value~p(3))")),
+    ("call-eq-as", lambda fn, cap, ctx: (f"({fn}({ctx})=1) as r", f"{fn}({ctx}, #value=1, !#value as r)")),
+    ("in-call-as-eq", lambda fn, cap, ctx: (f"h(q, {fn}({ctx}) as r = 1)", f"h(q, {fn}({ctx}, #value as r, #value=1))")),
+    ("root-chain-call-as-eq", lambda fn, cap, ctx: (f"g > {fn}({ctx}) as r = 1", f"g({fn}({ctx}, !#value as r, #value=1))")),
     ("root-chain-call-as", lambda fn, cap, ctx: (f"g > {fn}({ctx}) as r", f"g({fn}({ctx}, !#value as r))")),
 ]
 
